@@ -99,6 +99,12 @@ func TestVerifC05Closes(t *testing.T) {
 			t.Fatalf("%v\nparams: %v\ntrace:\n  %s", err, p,
 				strings.Join(s.Trace, "\n  "))
 		}
+		// terminal negative control: a commitment_signed with one wrong
+		// htlc signature must be refused (nothing follows it)
+		if _, err := s.TamperedSigEpilogue(); err != nil {
+			t.Fatalf("%v\nparams: %v\ntrace:\n  %s", err, p,
+				strings.Join(s.Trace, "\n  "))
+		}
 		st.Count("states_checked", int64(states))
 		st.Count("commit_txs_validated", int64(total.CommitTxs))
 		st.Count("timeout_txs_validated", int64(total.TimeoutTxs))
